@@ -19,9 +19,9 @@ package unpackinfo
 //@   ensures C01.lexical: err == nil ==> segUnder(Clean(info.Path), Clean(dst))
 //@   ensures C01.path: err == nil ==> info.Path == Join(dst, ite(header.Name[0] == '/', header.Name[1:], header.Name))
 //@   ensures C01.walk.nosymlink: err == nil ==> !$sawSymlink
-//@   ensures C01.walk.complete: err == nil ==> $nlstat == splitCount(header.Name, "/") - 1 || isNotExist($lastLstatErr)
+//@   ensures C01.walk.complete: err == nil ==> $nlstat == splitCount(Rel(Clean(dst), Clean(info.Path)), "/") - 1 || isNotExist($lastLstatErr)
 //@   at-call path/filepath.Join#2 C01.walk.nodotdot: a1 != ".."
-//@   invariant loop1 C01.walk.inv: $nlstat == i && !$sawSymlink && i >= 0 && i <= len(components)-1 && len(components) == splitCount(header.Name, "/")
+//@   invariant loop1 C01.walk.inv: $nlstat == i && !$sawSymlink && i >= 0 && i <= len(components)-1 && len(components) == splitCount(relTarget, "/")
 //@   ensures C01,C15.typegate: err == nil ==> header.Typeflag == tar.TypeDir || header.Typeflag == tar.TypeSymlink
 //@       || header.Typeflag == tar.TypeReg || header.Typeflag == tar.TypeRegA || header.Typeflag == tar.TypeXHeader || header.Typeflag == tar.TypeXGlobalHeader
 //@   ensures C15.fields: err == nil ==> info.Typeflag == header.Typeflag && info.OriginalModTime == header.ModTime && info.OriginalAccessTime == header.AccessTime
